@@ -298,6 +298,7 @@ uint64_t draw_countdown() {
 
 void fine_sync(Thread* me, int site = 9) {
   g_st.syncPoints++;
+  g_st.syncBySite[site >= 0 && site < 12 ? site : 0]++;
   if (g_cfg.hotSite != 0 && site == g_cfg.hotSite && g_cfg.hotRate > 0.0 && g_rngCount.uni() < g_cfg.hotRate) {
     g_st.syncYields++;
     sched_point(me);
